@@ -32,7 +32,12 @@ func (e *executionContext) appendLog(ctx context.Context, logBuilder func() *led
 
 	verifhook.Yield(ctx, "append.enter")
 	e.commander.appendMu.Lock()
-	chainedLog := e.commander.chainLog(logBuilder())
+	log := logBuilder()
+	if e.parameters.IdempotencyKey != "" {
+		// every kind of write records its idempotency key (metadata writes used to drop it)
+		log = log.WithIdempotencyKey(e.parameters.IdempotencyKey)
+	}
+	chainedLog := e.commander.chainLog(log)
 	logging.FromContext(ctx).WithFields(map[string]any{
 		"id": chainedLog.ID,
 	}).Debugf("Appending log")
